@@ -23,6 +23,13 @@ theorem getD_modify_oob {α} (a : Array α) (i j : Nat) (f : α → α) (d : α)
     simp [this]
   · exact getD_modify_other a i j f d hij
 
+theorem getD_push_lt {α} (a : Array α) (x d : α) (i : Nat) (h : i < a.size) : (a.push x).getD i d = a.getD i d := by
+  rw [Array.getD_eq_getD_getElem?, Array.getD_eq_getD_getElem?, Array.getElem?_push_lt h]; simp [h]
+theorem getD_push_eq {α} (a : Array α) (x d : α) : (a.push x).getD a.size d = x := by
+  rw [Array.getD_eq_getD_getElem?]; simp
+theorem getD_oob {α} (a : Array α) (d : α) (i : Nat) (h : a.size ≤ i) : a.getD i d = d := by
+  rw [Array.getD_eq_getD_getElem?, Array.getElem?_eq_none h]; rfl
+
 /-- reading a modified array: the modified slot (if it exists) or the old value -/
 theorem getD_modify {α} (a : Array α) (i j : Nat) (f : α → α) (d : α) :
     (a.modify i f).getD j d = if i = j ∧ i < a.size then f (a.getD j d) else a.getD j d := by
@@ -77,20 +84,35 @@ theorem req_setReq (w : World) (i j : Nat) (f : Req → Req) :
 @[simp] theorem registry_setConn (w : World) (i : Nat) (f : Conn → Conn) : (w.setConn i f).registry = w.registry := rfl
 @[simp] theorem registry_ev (w : World) (s : String) : (w.ev s).registry = w.registry := rfl
 
-theorem sev_eq (w : World) (sid : Nat) (s : String) : w.sev sid s = w ∨ w.sev sid s = w.ev s!"s{sid}:{s}" := by
-  unfold World.sev; split <;> simp
+@[simp] theorem slog_setSock (w : World) (i : Nat) (f : Sock → Sock) : (w.setSock i f).slog = w.slog := rfl
+@[simp] theorem slog_setTr (w : World) (i : Nat) (f : Tr → Tr) : (w.setTr i f).slog = w.slog := rfl
+@[simp] theorem slog_setReq (w : World) (i : Nat) (f : Req → Req) : (w.setReq i f).slog = w.slog := rfl
+@[simp] theorem slog_setConn (w : World) (i : Nat) (f : Conn → Conn) : (w.setConn i f).slog = w.slog := rfl
+@[simp] theorem slog_ev (w : World) (s : String) : (w.ev s).slog = w.slog := rfl
 
-@[simp] theorem sock_sev (w : World) (sid : Nat) (s : String) (j : Nat) : (w.sev sid s).sock j = w.sock j := by
-  rcases sev_eq w sid s with h | h <;> rw [h] <;> rfl
-@[simp] theorem tr_sev (w : World) (sid : Nat) (s : String) (j : Nat) : (w.sev sid s).tr j = w.tr j := by
-  rcases sev_eq w sid s with h | h <;> rw [h] <;> rfl
-@[simp] theorem socks_sev (w : World) (sid : Nat) (s : String) : (w.sev sid s).socks = w.socks := by
-  rcases sev_eq w sid s with h | h <;> rw [h] <;> rfl
-@[simp] theorem trs_sev (w : World) (sid : Nat) (s : String) : (w.sev sid s).trs = w.trs := by
-  rcases sev_eq w sid s with h | h <;> rw [h] <;> rfl
-@[simp] theorem reqs_sev (w : World) (sid : Nat) (s : String) : (w.sev sid s).reqs = w.reqs := by
-  rcases sev_eq w sid s with h | h <;> rw [h] <;> rfl
-@[simp] theorem registry_sev (w : World) (sid : Nat) (s : String) : (w.sev sid s).registry = w.registry := by
-  rcases sev_eq w sid s with h | h <;> rw [h] <;> rfl
+theorem sev_eq (w : World) (sid : Nat) (e : SEv) :
+    w.sev sid e = { w with slog := w.slog ++ [(sid, e)] } ∨
+    w.sev sid e = ({ w with slog := w.slog ++ [(sid, e)] } : World).ev s!"s{sid}:{e.render}" := by
+  unfold World.sev; simp only []; split <;> simp
+
+@[simp] theorem sock_sev (w : World) (sid : Nat) (e : SEv) (j : Nat) : (w.sev sid e).sock j = w.sock j := by
+  rcases sev_eq w sid e with h | h <;> rw [h] <;> rfl
+@[simp] theorem tr_sev (w : World) (sid : Nat) (e : SEv) (j : Nat) : (w.sev sid e).tr j = w.tr j := by
+  rcases sev_eq w sid e with h | h <;> rw [h] <;> rfl
+@[simp] theorem socks_sev (w : World) (sid : Nat) (e : SEv) : (w.sev sid e).socks = w.socks := by
+  rcases sev_eq w sid e with h | h <;> rw [h] <;> rfl
+@[simp] theorem trs_sev (w : World) (sid : Nat) (e : SEv) : (w.sev sid e).trs = w.trs := by
+  rcases sev_eq w sid e with h | h <;> rw [h] <;> rfl
+@[simp] theorem reqs_sev (w : World) (sid : Nat) (e : SEv) : (w.sev sid e).reqs = w.reqs := by
+  rcases sev_eq w sid e with h | h <;> rw [h] <;> rfl
+@[simp] theorem registry_sev (w : World) (sid : Nat) (e : SEv) : (w.sev sid e).registry = w.registry := by
+  rcases sev_eq w sid e with h | h <;> rw [h] <;> rfl
+@[simp] theorem slog_sev (w : World) (sid : Nat) (e : SEv) : (w.sev sid e).slog = w.slog ++ [(sid, e)] := by
+  rcases sev_eq w sid e with h | h <;> rw [h] <;> rfl
+
+theorem sock_oob (w : World) (i : Nat) (h : w.socks.size ≤ i) : w.sock i = default := by
+  unfold World.sock Array.getD; simp [Nat.not_lt.mpr h]
+theorem tr_oob (w : World) (i : Nat) (h : w.trs.size ≤ i) : w.tr i = default := by
+  unfold World.tr Array.getD; simp [Nat.not_lt.mpr h]
 
 end EIO.Ses
